@@ -9,21 +9,23 @@
    right arity, arguments that are declared objects or constants of a conforming type; numerals);
    [spec_dump num sp] is what the text says and [dump_problem pb] what the parsed problem contains
    (objects with types in order, fact set, fluent map, goal literals in order, numeric goals as a multiset).
-   The model is Model/Problem.v in the configuration [cfg_fixed] = the tree with the proposed fixes D19a-c.
+   The model is Model/Problem.v in the configuration [cfg_fixed] = the current tree (fixes D19a-c, c7c8534).
 
    FULL STATEMENTS (C05_iff_statement, C05_faithful_statement in Proofs/C05_Main.v):
      accepted <-> well formed;   accepted -> dump equivalent to what the text says.
    They are FALSE for the current code:
      C05_iff_refuted       finding D19d  numeric goals accept undeclared / ill-typed arguments
-     C05_faithful_refuted  finding D07   repeated arguments of fluents collapse
+     C05_accepts_refuted   finding D07   a well-formed numeric goal over a fluent with a repeated argument is refused
+     C05_faithful_refuted  finding D07   repeated arguments of initial fluents collapse
    and were false in more ways on the pinned tree (C05_pinned_refuted: D19a, D19b, D19c, repaired).
    What holds, for every problem of the grammar, every domain, every numeral reader:
-     C05_accepts           well formed -> accepted                                    (no side condition)
      C05_code_iff          accepted <-> the checks the code performs (exact characterisation of the model)
-     C05_wf_split          well formed = those checks && the arguments of numeric-goal fluents are well typed
-     C05_iff_partial       accepted <-> well formed, when the latter condition holds (outside class D19d)
-     C05_rejects           ... hence every single-point corruption outside that class is rejected
-     C05_faithful_partial  accepted -> faithful, when no fluent has a repeated argument (outside class D07) *)
+     C05_wf_split          well formed && no repeated argument in a numeric goal
+                             = those checks && the arguments of numeric-goal fluents are well typed
+     C05_accepts           well formed -> accepted, when no numeric goal repeats an argument (outside class D07)
+     C05_iff_partial       accepted <-> well formed, outside the classes D19d and D07(goal)
+     C05_rejects           every ill-formed text is rejected outside class D19d: every single-point corruption
+     C05_faithful_partial  accepted -> faithful, when no initial fluent has a repeated argument (outside class D07) *)
 From Coq Require Import List String Bool PrimFloat.
 From Verif Require Import Base.Result Base.Str Base.Sexp Base.PyDict Model.Domain Model.NumExpr Model.Problem
   Model.ProblemObs Spec.Pddl Spec.Grammar Spec.Problem
@@ -32,7 +34,7 @@ Import ListNotations.
 Open Scope string_scope.
 
 Theorem C05_accepts : forall num dom, dom_ok dom -> num_ok num -> forall e sp,
-  read_problem num e = Some sp -> wf_sproblem num (vocab_of dom) sp = true ->
+  read_problem num e = Some sp -> goal_norepeat sp = true -> wf_sproblem num (vocab_of dom) sp = true ->
   exists pb, parse_problem cfg_fixed num dom e = Ok pb.
 Proof. exact C05_accepts_lemma. Qed.
 
@@ -42,11 +44,11 @@ Theorem C05_code_iff : forall num dom, dom_ok dom -> num_ok num -> forall e sp,
 Proof. exact accepted_iff_code. Qed.
 
 Theorem C05_wf_split : forall num dom sp,
-  wf_sproblem num (vocab_of dom) sp = wf_code num dom sp && goal_args_ok dom sp.
+  wf_sproblem num (vocab_of dom) sp && goal_norepeat sp = wf_code num dom sp && goal_args_ok dom sp.
 Proof. exact wf_split. Qed.
 
 Theorem C05_iff_partial : forall num dom, dom_ok dom -> num_ok num -> forall e sp,
-  read_problem num e = Some sp -> goal_args_ok dom sp = true ->
+  read_problem num e = Some sp -> goal_args_ok dom sp = true -> goal_norepeat sp = true ->
   ((exists pb, parse_problem cfg_fixed num dom e = Ok pb) <-> wf_sproblem num (vocab_of dom) sp = true).
 Proof. exact C05_iff_partial_lemma. Qed.
 
@@ -67,6 +69,11 @@ Proof. exact C05_iff_refuted_lemma. Qed.
 Theorem C05_faithful_refuted : ~ C05_faithful_statement cfg_fixed.
 Proof. exact C05_faithful_refuted_lemma. Qed.
 
+Theorem C05_accepts_refuted :
+  exists sp k, read_problem ex_num d07_goal_problem = Some sp /\ wf_sproblem ex_num (vocab_of ex_dom) sp = true /\
+               goal_args_ok ex_dom sp = true /\ parse_problem cfg_fixed ex_num ex_dom d07_goal_problem = Err k.
+Proof. exact C05_accepts_refuted_lemma. Qed.
+
 Theorem C05_pinned_refuted :
   ~ C05_faithful_statement cfg_pinned /\ ~ C05_iff_statement cfg_pinned /\
   (exists sp pb, read_problem ex_num d19c_problem = Some sp /\ wf_sproblem ex_num (vocab_of ex_dom) sp = false /\
@@ -77,7 +84,7 @@ Proof. exact C05_pinned_refuted_lemma. Qed.
 Theorem C05_nonvacuous_thm :
   dom_ok ex_dom /\ num_ok ex_num /\
   exists sp, read_problem ex_num ex_problem = Some sp /\ wf_sproblem ex_num (vocab_of ex_dom) sp = true /\
-             goal_args_ok ex_dom sp = true /\ no_repeats sp = true /\
+             goal_args_ok ex_dom sp = true /\ goal_norepeat sp = true /\ no_repeats sp = true /\
              List.length (sp_objects sp) = 4 /\ List.length (sp_facts sp) = 4 /\ List.length (sp_fluents sp) = 3 /\
              List.length (sp_goal sp) = 1 /\ List.length (sp_goal_num sp) = 2.
 Proof. exact (conj ex_dom_ok (conj ex_num_ok C05_nonvacuous)). Qed.
@@ -90,5 +97,6 @@ Print Assumptions C05_rejects.
 Print Assumptions C05_faithful_partial.
 Print Assumptions C05_iff_refuted.
 Print Assumptions C05_faithful_refuted.
+Print Assumptions C05_accepts_refuted.
 Print Assumptions C05_pinned_refuted.
 Print Assumptions C05_nonvacuous_thm.
